@@ -105,7 +105,7 @@ def validate(ctx, traces):
             continue
         e = t["events"][v["l"] - 1]
         api = {"kernels": e.get("method", ""), "frame": e.get("method", ""), "freq": e.get("method", ""), "gibbs": "GibbsSampling",
-               "repro": e.get("method", ""), "xrepro": e.get("method", ""), "partial": e.get("method", ""), "missing": e.get("method", ""), "sweep": "GibbsSampling"}.get(e["ev"], e["ev"])
+               "repro": e.get("method", ""), "xrepro": e.get("method", ""), "partial": e.get("method", ""), "missing": e.get("method", ""), "sweep": "GibbsSampling", "kept": e.get("method", "")}.get(e["ev"], e["ev"])
         feat = {"has_latents": bool(t["inst"]["latents"]), "kind": t["inst"]["kind"]}
         if t.get("backend"):
             feat["backend"] = t["backend"]
@@ -468,6 +468,33 @@ def record(payload):
                     ds5 = model.simulate(n_samples=20, include_latents=True, seed=s1 + 7, show_progress=False)
                     events.append({"ev": "repro", "method": "simulate", "same": bool(ds4.equals(ds5))})
                     digest("simulate", ds4)
+                    # do() together with a virtual intervention, a large sample: every node that is neither intervened nor softly
+                    # intervened keeps its conditional distribution given its parents (6-sigma per kernel; conditioning on the do-variable
+                    # instead of cutting its incoming edges shifts its parents)
+                    if len(inst["nodes"]) >= 3:
+                        # (the intervened variable has parents where possible: that is where intervening and conditioning differ)
+                        xdo = rng.choice([n2 for n2 in inst["nodes"] if inst["parents"][n2]] or inst["nodes"])
+                        dod = {xdo: row0[xdo]}
+                        dkw = {conc.vn[v]: conc.sn[v][s] for v, s in dod.items()}
+                        wv = rng.choice([n2 for n2 in inst["nodes"] if n2 != xdo])
+                        vwi = _vw(rng, len(inst["states"][wv]))
+                        vwi["w"] = [max(1, x) for x in vwi["w"]]
+                        nbig = 3000
+                        dsb = model.simulate(n_samples=nbig, do=dkw, virtual_intervention=make_virtual(inst, conc, {wv: vwi}),
+                                             include_latents=True, seed=s1 + 15, show_progress=False)
+                        frame_event("simulate", dsb, nbig, True, dod, clamped=[xdo, wv])
+                        rows_b = rows_of(dsb)
+                        for v in inst["nodes"]:
+                            if v in (xdo, wv):
+                                continue
+                            counts = {}
+                            for row in rows_b:
+                                pa = {p: row[p] for p in inst["parents"][v]}
+                                c = counts.setdefault(json.dumps(pa, sort_keys=True), {"pa": pa, "n": 0, "c": [0] * len(inst["states"][v])})
+                                c["n"] += 1
+                                if row[v] in inst["states"][v]:
+                                    c["c"][inst["states"][v].index(row[v])] += 1
+                            events.append({"ev": "freq", "method": "simulate_do_virtual", "node": v, "counts": list(counts.values())})
                     # missing values: the mask is part of the seeded result
                     dm = model.simulate(n_samples=40, include_latents=False, seed=s1 + 9, show_progress=False, include_missing=True,
                                         missing_prob=rng.choice([0.1, 0.3, 0.5]))
@@ -514,6 +541,14 @@ def record(payload):
                                 state[v] = inst["states"][v][int(np.array(call[3]).ravel()[0])]
                             events.append({"ev": "sweep", "method": "gibbs", "after": grow[i + 1], "state": state})
                     perturb()
+                    # generate_sample: every yielded state is copied at yield time and compared with what the caller kept
+                    for incl in (True, False):
+                        kept, snaps = [], []
+                        for st_ in GibbsSampling(model).generate_sample(size=5, include_latents=incl, seed=s1 + 14):
+                            kept.append(st_)
+                            snaps.append([(x.var, int(x.state)) for x in st_])
+                        events.append({"ev": "kept", "method": "gibbs_generate", "include_latents": incl,
+                                       "same": [[(x.var, int(x.state)) for x in st_] for st_ in kept] == snaps})
                     gdf2 = GibbsSampling(model).sample(size=ng, seed=s1 + 12, include_latents=True)
                     perturb()
                     gdf3 = GibbsSampling(model).sample(size=ng, seed=s1 + 12, include_latents=True)
